@@ -85,15 +85,26 @@ func vExpand(c *JApiCore) *jerr.JApiError {
 // kinds / flags symbolic. Run 1 scans  P S  in place; run 2 scans
 // MACRO @m ( S )  and  P PASTE @m ; after MACRO/PASTE processing both must give the same tree.
 func HPaste() {
-	np, ns := vParam("np", 1), vParam("ns", 1)
+	np, ns, nf := vParam("np", 1), vParam("ns", 1), vParam("nf", 0)
 	maxKind := vParam("maxkind", kCount-1)
+	subset := vC11Subsets[vParam("subset", 0)]
 	mk := func(id string) vEvent {
-		e := vEvent{kind: vInt("kind"+id, 0, maxKind), hasPath: vBool("path" + id), explicit: vBool("open" + id)}
+		e := vEvent{hasPath: vBool("path" + id), explicit: vBool("open" + id)}
+		if len(subset) == 0 {
+			e.kind = vInt("kind"+id, 0, maxKind)
+		} else {
+			e.kind = subset[vInt("kind"+id, 0, len(subset)-1)]
+		}
 		// MACRO / PASTE / INCLUDE inside the pieces are the business of the macro-graph harness
 		vAssume(e.kind != kMACRO && e.kind != kPASTE && e.kind != kINCLUDE)
 		return e
 	}
-	var P, S []vEvent
+	var P, S, F []vEvent
+	for i := 0; i < nf; i++ {
+		f := mk("f" + string(rune('0'+i)))
+		vAssume(!f.explicit) // the following directive is a plain one
+		F = append(F, f)
+	}
 	for i := 0; i < np; i++ {
 		P = append(P, mk("p"+string(rune('0'+i))))
 	}
@@ -117,6 +128,7 @@ func HPaste() {
 	ev1 = append(ev1, P...)
 	ev1 = append(ev1, S...)
 	ev1 = append(ev1, closeAll(S)...)
+	ev1 = append(ev1, F...)
 	ev1 = append(ev1, closeAll(P)...)
 	c1 := NewJApiCore(file)
 	c1.scanner.SetCurrentIndex(5)
@@ -133,6 +145,7 @@ func HPaste() {
 	ev2 = append(ev2, vEvent{close: true})
 	ev2 = append(ev2, P...)
 	ev2 = append(ev2, vEvent{kind: kPASTE, name: "@m"})
+	ev2 = append(ev2, F...)
 	ev2 = append(ev2, closeAll(P)...)
 	c2 := NewJApiCore(file)
 	c2.scanner.SetCurrentIndex(5)
